@@ -160,6 +160,10 @@ func (g *c16gen) structDoc(t reflect.Type, depth int) *dv {
 	// unknown keys: consumed by the inline field, or ignored
 	for k := g.rng.Intn(3); k > 0; k-- {
 		key := fmt.Sprintf("extra%d", g.rng.Intn(5))
+		if g.rng.Chance(12) {
+			// keys written plain that YAML resolves to something other than text keep their spelling
+			key = sx.Pick(g.rng, []string{"2024-02-01", "2001-12-14t21:59:43.10-05:00", "2002-1-2"})
+		}
 		if inline != nil && g.rng.Chance(25) {
 			// an unknown key that happens to spell the inline field's own (lower-cased) Go name is an unknown key
 			key = strings.ToLower(inline.Name)
@@ -240,6 +244,10 @@ func c16orderedTargets(rng *sx.Rng, n int) {
 		coll := func(el func() *dv) *dv {
 			m := dMap()
 			for k := rng.Intn(5); k > 0; k-- {
+				if rng.Chance(12) {
+					m.set(sx.Pick(rng, []string{"2024-02-01", "2002-1-2"}), el())
+					continue
+				}
 				m.set(fmt.Sprintf("k%d", rng.Intn(8)), el())
 			}
 			return m
